@@ -19,6 +19,7 @@ Definition lookup_ent (pr : peer_state) (e : ent) : option entity := p_ents pr !
 
 Definition u2e_list (pr : peer_state) : list (uuid * ent) := map_to_list (t_u2e pr).
 Definition e2u_list (pr : peer_state) : list (ent * uuid) := map_to_list (t_e2u pr).
+Definition ptok_list (pr : peer_state) : list (uuid * uuid) := map_to_list (t_ptok pr).
 Definition inbox_of (pr : peer_state) (from : peer) : list msg := default [] (n_inbox pr !! from).
 Definition inbox_all (pr : peer_state) : list (peer * list msg) := map_to_list (n_inbox pr).
 Definition pending_cmds (pr : peer_state) : nat := length (concat (snd <$> map_to_list (p_cmdq pr))).
